@@ -305,6 +305,9 @@ func nativeReplayBatch(pkgRel string, paths []string, files []string, pkgName st
 	}
 	for len(pending) > 0 {
 		o := run(pending)
+		if os.Getenv("VF_DEBUG") != "" {
+			fmt.Println(o)
+		}
 		got := map[int]bool{}
 		begun := -1
 		for _, l := range strings.Split(o, "\n") {
